@@ -208,13 +208,13 @@ fn scenarios(seed: u64, thorough: bool) -> Vec<Scn> {
             edits: vec![],
         },
     ];
+    s.push(Scn { name: "S4-delete-A", init_a: both(z()), init_b: both(z()), prior_sync: true, edits: vec![('A', "f", None)] });
+    s.push(Scn { name: "S7-delete-vs-modify", init_a: both(z()), init_b: both(z()), prior_sync: true, edits: vec![('A', "f", None), ('B', "f", Some(y()))] });
     if thorough {
         s.extend(vec![
             Scn { name: "S1-create", init_a: vec![("k", z())], init_b: vec![("k", z())], prior_sync: true, edits: vec![('A', "new/f", Some(x()))] },
             Scn { name: "S3-propagate-B-to-A", init_a: both(z()), init_b: both(z()), prior_sync: true, edits: vec![('B', "f", Some(y()))] },
-            Scn { name: "S4-delete-A", init_a: both(z()), init_b: both(z()), prior_sync: true, edits: vec![('A', "f", None)] },
             Scn { name: "S5-delete-B", init_a: both(z()), init_b: both(z()), prior_sync: true, edits: vec![('B', "f", None)] },
-            Scn { name: "S7-delete-vs-modify", init_a: both(z()), init_b: both(z()), prior_sync: true, edits: vec![('A', "f", None), ('B', "f", Some(y()))] },
             Scn {
                 name: "S9-several-paths",
                 init_a: vec![("d/a", z()), ("d/e/b", z()), ("c", b"cc".to_vec()), ("k", b"kk".to_vec())],
